@@ -43,9 +43,12 @@ type c01Case struct {
 	Missing   []int     `json:"missing_chunks,omitempty"` // chunk numbers absent from the store
 	Sched     uint64    `json:"sched_seed"`
 	Shape     string    `json:"shape"`
+	Trace     bool      `json:"trace,omitempty"` // record the workers' events (SHA256 ids) for trace validation
 	// outcome
 	Result string `json:"result,omitempty"` // nil | err:<msg> | hang | panic
 	Equal  bool   `json:"output_equals_blob,omitempty"`
+	TraceArgs []string `json:"trace_args,omitempty"` // idx, plan, file0, events for the oracle command c01.atrace
+	TraceAns  string   `json:"trace_model,omitempty"`
 }
 
 type memStore struct {
@@ -131,6 +134,9 @@ func cloneEmu(bs uint64) func(dst, src *os.File, srcOffset, srcLength, dstOffset
 // c01RunOne executes one case in this process (the child). Returns with c.Result set.
 func c01RunOne(work string, c *c01Case) {
 	desync.Digest = desync.SHA512256{}
+	if c.Trace {
+		desync.Digest = desync.SHA256{}
+	}
 	dir, err := os.MkdirTemp(work, "case")
 	if err != nil {
 		c.Result = "err:harness " + err.Error()
@@ -205,6 +211,11 @@ func c01RunOne(work string, c *c01Case) {
 	ch := vh.NewChaos(c.Sched, 5, 30*time.Microsecond)
 	desync.VerifSetYieldHook(ch.Hook)
 	defer desync.VerifSetYieldHook(nil)
+	var rec *c01Recorder
+	if c.Trace {
+		rec = c01StartRecorder(target)
+		defer rec.stop()
+	}
 	done := make(chan error, 1)
 	go func() {
 		_, err := desync.AssembleFile(context.Background(), target, idx, store, seeds,
@@ -220,6 +231,10 @@ func c01RunOne(work string, c *c01Case) {
 		c.Result = "nil"
 		out, rerr := os.ReadFile(target)
 		c.Equal = rerr == nil && bytes.Equal(out, blob)
+		if rec != nil {
+			rec.stop()
+			c.TraceArgs = rec.args(idx, vh.UnHex(c.PriorHex), c.Prior)
+		}
 	case <-time.After(20 * time.Second):
 		c.Result = "hang"
 	}
@@ -242,7 +257,7 @@ func c01Child(a vh.Args) error {
 	defer out.Close()
 	for i := range batch {
 		c01RunOne(a.Work, &batch[i])
-		line, _ := json.Marshal(map[string]interface{}{"i": i, "result": batch[i].Result, "equal": batch[i].Equal})
+		line, _ := json.Marshal(map[string]interface{}{"i": i, "result": batch[i].Result, "equal": batch[i].Equal, "trace_args": batch[i].TraceArgs})
 		out.Write(append(line, '\n'))
 		out.Sync()
 		if batch[i].Result == "hang" {
@@ -287,13 +302,15 @@ func c01RunBatch(a vh.Args, cases []c01Case) error {
 			sc.Buffer(make([]byte, 1<<20), 1<<26)
 			for sc.Scan() {
 				var r struct {
-					I      int    `json:"i"`
-					Result string `json:"result"`
-					Equal  bool   `json:"equal"`
+					I      int      `json:"i"`
+					Result string   `json:"result"`
+					Equal  bool     `json:"equal"`
+					Trace  []string `json:"trace_args"`
 				}
 				if json.Unmarshal(sc.Bytes(), &r) == nil {
 					cases[start+r.I].Result = r.Result
 					cases[start+r.I].Equal = r.Equal
+					cases[start+r.I].TraceArgs = r.Trace
 					n = r.I + 1
 				}
 			}
@@ -515,6 +532,7 @@ func c01Gen(rng *vh.Rand) c01Case {
 		c.Missing = []int{rng.Intn(len(sizes))}
 	}
 	c.Sched = rng.U64() % 1000000
+	c.Trace = len(blob) <= 6000
 	return c
 }
 
@@ -543,6 +561,9 @@ func runC01(a vh.Args, o *vh.Oracle, r *vh.Result) error {
 		}
 		for i := range cases {
 			c01Judge(r, &cases[i])
+			if err := c01JudgeTrace(o, r, &cases[i]); err != nil {
+				return err
+			}
 		}
 		return nil
 	}
@@ -558,7 +579,20 @@ func runC01(a vh.Args, o *vh.Oracle, r *vh.Result) error {
 		c01Case{BlobHex: "-", Min: 64, Avg: 96, Max: 128, Prior: "garbage", PriorHex: "0102030405", N: 1, Shape: "empty"},
 	)
 	for len(cases) < n {
-		cases = append(cases, c01Gen(rng))
+		c := c01Gen(rng)
+		if rng.Chance(1, 10) {
+			// self-seed family: no seeds, fresh target, the blob twice (chunks recur once the chunker has
+			// resynchronised), few workers: later rows are copied from earlier, finished ones
+			b := vh.UnHex(c.BlobHex)
+			if len(b) > 0 && len(b) <= 3000 {
+				b = append(append([]byte{}, b...), b...)
+				c.BlobHex, c.Seeds, c.Prior, c.PriorHex, c.Missing = vh.Hex(b), nil, "absent", "", nil
+				c.N = 1 + rng.Intn(2)
+				c.Shape += "+selfdup"
+				c.Trace = true
+			}
+		}
+		cases = append(cases, c)
 	}
 	const batch = 100
 	for i := 0; i < len(cases); i += batch {
@@ -572,6 +606,9 @@ func runC01(a vh.Args, o *vh.Oracle, r *vh.Result) error {
 	}
 	for i := range cases {
 		c01Judge(r, &cases[i])
+		if err := c01JudgeTrace(o, r, &cases[i]); err != nil {
+			return err
+		}
 	}
 	nclone := 400
 	if a.Tier == "thorough" {
